@@ -37,6 +37,15 @@ SMis(e, fields, exp, obs) ==
 IssuingPc(pc) == pc \in {"rd.inval", "rd.createAT", "rd.createRT", "rd.commit", "rf.rotate", "rf.createAT", "rf.createRT", "rf.commit",
                          "dp.inval", "dp.createAT", "dp.createRT", "dp.commit"}
 
+(* what can be said about a finished single request from the observation alone (used after the          *)
+(* specification and the implementation have parted ways, so that the rest of the history is not wasted)   *)
+BlindObs(e) ==
+  LET o == e.obs IN
+  (IF e.done /\ o.res # "ok" /\ (o.new.at # 0 \/ o.new.rt # 0 \/ o.idt) THEN {"O.TokensOnFailure"} ELSE {})
+  \cup (IF e.done /\ Len(procs) = 1 /\ ~TxBalanced(e.txlog) THEN {"O.TxUnbalanced"} ELSE {})
+  \cup (IF e.done /\ Len(procs) = 1 /\ st.cfg.store = "tx" /\ "rollback" \in Range(e.txlog)
+           /\ proj0 # <<>> /\ ObsProj(e) # proj0 THEN {"O.RollbackDidNotRestore"} ELSE {})
+
 (* ---- a sequential line: reset also clears the step-level variables ------------- *)
 SSeq ==
   /\ TStep
@@ -64,7 +73,14 @@ SStart ==
 SStepEv ==
   /\ l <= Len(Trace) /\ Trace[l].ev = "step"
   /\ LET e == Trace[l] IN
-     IF skip THEN UNCHANGED <<st, skip, report, stats, seen, svars>>
+     IF skip
+     THEN \* the specification lost track of this history: only what the observation alone decides is still checked
+          LET bd == BlindObs(e) IN
+          /\ UNCHANGED <<st, skip, seen, svars>>
+          /\ IF bd = {} THEN UNCHANGED <<report, stats>>
+             ELSE /\ stats' = [stats EXCEPT !.diverged = @ + 1]
+                  /\ report' = Append(report, SMis(e, bd, [proj |-> proj0, txlog |-> <<>>], [proj |-> ObsProj(e), txlog |-> e.txlog, res |-> e.obs.res,
+                                                   at |-> e.obs.new.at, rt |-> e.obs.new.rt]))
      ELSE IF e.p \notin DOMAIN procs \/ procs[e.p].pc = "done"
      THEN /\ skip' = TRUE /\ stats' = [stats EXCEPT !.diverged = @ + 1]
           /\ report' = Append(report, SMis(e, {"done"}, [method |-> "finished"], [method |-> e.method]))
@@ -84,7 +100,8 @@ SStepEv ==
               \* observation-only predicates (C18)
               od == (IF e.done /\ o.res # "ok" /\ (o.new.at # 0 \/ o.new.rt # 0 \/ o.idt) THEN {"O.TokensOnFailure"} ELSE {})
                     \cup (IF e.done /\ Len(procs) = 1 /\ ~TxBalanced(e.txlog) THEN {"O.TxUnbalanced"} ELSE {})
-                    \cup (IF e.done /\ Len(procs) = 1 /\ st.cfg.store = "tx" /\ (IF e.f # "none" THEN IssuingPc(pr.pc) ELSE IssuingPc(fpc))
+                    \cup (IF e.done /\ Len(procs) = 1 /\ st.cfg.store = "tx"
+                             /\ ((IF e.f # "none" THEN IssuingPc(pr.pc) ELSE IssuingPc(fpc)) \/ "rollback" \in Range(e.txlog))
                              /\ proj0 # <<>> /\ ObsProj(e) # proj0 THEN {"O.RollbackDidNotRestore"} ELSE {})
           IN /\ st' = r.G.st /\ snap' = r.G.snap /\ open' = r.G.open /\ txlog' = r.G.txlog
              /\ procs' = [procs EXCEPT ![e.p] = r.pr]
